@@ -23,7 +23,8 @@ RULE = ('sequential: every program = sequence of nested levels (entry form x exi
 ASSUMPTIONS = ['scope names from a fixed menu', 'scheduling points = line events in /repo/gin/*.py (sys.settrace)',
                'threads are real threading.Thread objects run one at a time under a baton scheduler']
 WITNESSES = ['nested_append', 'list_replaces', 'none_clears', 'exception_exit_restores', 'invalid_restores',
-             'scoped_selector_scope', 'scoped_ref_scope', 'outer_scope_object_reentered', 'thread_private']
+             'scoped_selector_scope', 'scoped_ref_scope', 'outer_scope_object_reentered', 'thread_private',
+             'baseexception_exit_restores']
 
 
 class Boom(Exception):
@@ -55,10 +56,19 @@ def setup():
     raise Boom()
 
   @gin.configurable(module='c09')
+  def kbd():
+    OBS.append(('kbd', gin.current_scope()))
+    raise KeyboardInterrupt()      # not an Exception subclass
+
+  @gin.configurable(module='c09')
   def consumer(v=None):
     return v
-  global PROBE, BOOM, CONSUMER
-  PROBE, BOOM, CONSUMER = probe, boom, consumer
+
+  @gin.configurable(module='c09')
+  def consumer2(v=None):
+    return v
+  global PROBE, BOOM, CONSUMER, CONSUMER2
+  PROBE, BOOM, CONSUMER, CONSUMER2 = probe, boom, consumer, consumer2
   from vf import sched
   sched.install_model_locks()
 
@@ -72,7 +82,7 @@ ENTRY = {
 }
 VALID = [k for k in ENTRY if not k.startswith('!')]
 INVALID = [k for k in ENTRY if k.startswith('!')]
-LEAVES = ['none', 'probe', 'getconf_scoped', 'ref_scoped', 'boom_scoped', 'getconf_unscoped']
+LEAVES = ['none', 'probe', 'getconf_scoped', 'ref_scoped', 'boom_scoped', 'getconf_unscoped', 'kbd_scoped', 'kbd_ref_scoped']
 
 
 def bound(tier):
@@ -123,6 +133,19 @@ def do_leaf(leaf, stack, res, prog):
       CONSUMER()
     exp = [('probe', ['p'], None)]
     res.w('scoped_ref_scope')
+  elif leaf == 'kbd_scoped':
+    try:
+      gin.get_configurable('p/q/c09.kbd')()
+    except KeyboardInterrupt:
+      pass
+    exp = [('kbd', ['p', 'q'])]
+  elif leaf == 'kbd_ref_scoped':
+    try:
+      with gin.config_scope(['refs2']):
+        CONSUMER2()
+    except KeyboardInterrupt:
+      pass
+    exp = [('kbd', ['p'])]
   elif leaf == 'boom_scoped':
     try:
       gin.get_configurable('p/c09.boom')()
@@ -176,6 +199,11 @@ def run_level(prog, i, stack, outer_objs, res):
                       (gin.current_scope(), new_top, prog), prog)
       if exit_kind == 'raise':
         raise Boom()
+      if exit_kind == 'raise_base':
+        raise KeyboardInterrupt()
+  except KeyboardInterrupt:
+    if entered:
+      res.w('baseexception_exit_restores')
   except Boom:
     if exit_kind == 'raise' and entered:
       res.w('exception_exit_restores')
@@ -207,6 +235,7 @@ def run_level(prog, i, stack, outer_objs, res):
 def run_program(prog, res):
   harness.hard_reset()
   gin.bind_parameter(('refs', 'c09.consumer', 'v'), cfg.ConfigurableReference('p/c09.probe', True))
+  gin.bind_parameter(('refs2', 'c09.consumer2', 'v'), cfg.ConfigurableReference('p/c09.kbd', True))
   stack = [[]]
   run_level(prog, 0, stack, [], res)
   try:
@@ -232,7 +261,7 @@ def programs(depth):
     if prefix and prefix[-1][0].startswith('!'):
       return
     for entry in VALID:
-      for exit_kind in ('normal', 'raise'):
+      for exit_kind in (('normal', 'raise', 'raise_base') if d == 1 else ('normal', 'raise')):
         leaves = LEAVES if d == 1 or not prefix else ['none', 'probe']
         for leaf in leaves:
           yield from rec(prefix + [(entry, exit_kind, leaf)], d - 1)
